@@ -96,7 +96,11 @@ pub trait Prop: Sync {
 }
 
 pub fn silence_panics() {
-    std::panic::set_hook(Box::new(|_| {}));
+    if std::env::var("RC_PANIC_MSG").is_ok() {
+        std::panic::set_hook(Box::new(|i| { eprintln!("PANIC: {}", i); }));
+    } else {
+        std::panic::set_hook(Box::new(|_| {}));
+    }
 }
 
 pub fn catch<F: FnOnce() -> String>(f: F) -> String {
